@@ -17,7 +17,7 @@ def pick(rng, seq):
 def gen_fd(rng, fd, files):
     """Return (descriptor dict); may add backing files to `files`."""
     kind = pick(rng, ["file", "file", "file", "deleted", "dir", "chr",
-                      "socket", "pipe", "anon", "rel"])
+                      "socket", "pipe", "anon", "rel", "unstatable"])
     acc = pick(rng, [0, 0, 1, 2, 2, 1])
     flags = acc
     for bit in (0o2000, 0o100, 0o1000, 0o2000000, 0o4000, 0o100000):
@@ -41,6 +41,17 @@ def gen_fd(rng, fd, files):
             files[path + " (deleted)"] = {"t": "f", "data": "y"}
         elif r < 0.6:
             files[path] = {"t": "f", "data": "y"}
+    elif kind == "unstatable":
+        # the target cannot be stat()ed for a reason other than ENOENT /
+        # EACCES (a path component replaced by a file, a symlink loop, a
+        # stale NFS handle): the descriptor is simply left out
+        path = "/tmp/gone%d/f" % fd
+        files[path] = {"t": "f", "data": "x",
+                       "stat_err": pick(rng, [20, 40, 116, 5])}
+        d["kind"] = "raw"
+        d["target"] = path + pick(rng, ["", " (deleted)"])
+        if d["target"].endswith(" (deleted)"):
+            files[d["target"]] = dict(files[path])
     elif kind == "dir":
         d["target"] = "/tmp"
         files.setdefault("/tmp/.keep", {"t": "f", "data": ""})
